@@ -78,7 +78,7 @@ def generate(tier, rng):
                 steps.append({"act": "Cmd", "c": rng.choice(["pause", "resume", "stop", "volume", "panning", "rate", "pause", "resume"]),
                               "d": rng.choice([0, 1, 2, 3, 6]), "v": rng.choice([0, 1, 2])})
         steps += [{"act": "Callback"}] * 3
-        scen.append({"cfg": {"len": ln, "lo": lo, "hi": hi, "start": start, "ls": ls, "le": le, "open": opn,
+        scen.append({"cfg": {"len": ln, "lo": lo, "hi": hi, "rs": hi == ln and rng.random() < 0.5, "start": start, "ls": ls, "le": le, "open": opn,
                              "rate": rng.choice([0, 128, 256, 256, 512]), "pk": rng.choice([1, 2, 3, 5, 16]), "early": rng.choice([0, 1, 2, 5])},
                      "src": "random", "ring": rng.choice([0, 48, 64, 12]), "steps": steps})
     return scen
